@@ -18,7 +18,7 @@
 (*    change neither the watermark nor the shutdown flag).                                           *)
 (*  - worker.*.taken / worker.idle: the worker loop's iterations.  What it takes from its two        *)
 (*    single-slot channels must be something the specification's slots held since the worker was    *)
-(*    last at the top of its loop (syncSlot, elecSlot: the newest accepted value, overwritten,       *)
+(*    last at the top of its loop (syncSlot / elecHist: the newest accepted value, overwritten,       *)
 (*    emptied by the worker), syncs in increasing order, and what it does with it must               *)
 (*    follow WorkerSyncAccepts / WorkerElectionCurrent; every blocking consumer call is made with    *)
 (*    the context the worker requested last (EnterSpi of Runtime.tla), and a context the             *)
@@ -42,10 +42,16 @@ IdleW == [kind |-> "-", arg |-> NoHV, act |-> FALSE, fors |-> 0, firstOk |-> FAL
 \* receive from the channel cannot be logged atomically with it: between the receive and the "taken" event the main
 \* loop may already have refilled the (then empty) slot, so "taken" may report any value of the history, not only
 \* the slot's present content.
-Fresh == [maxSync |-> -1, syncSlot |-> -1, elecSlot |-> NoHV, syncHist |-> {}, elecHist |-> {}, lastSync |-> -1,
+\* Election triggers for one position may repeat (the scheduler may fire the same pair twice), so elecHist is the SEQUENCE of
+\* triggers handed over and not yet matched by a "taken" event (a set would conflate two equal triggers, one taken before the
+\* second was handed over, the other after: first version of this check, false alarm).  At the top of the worker's loop only the
+\* newest can still be in the single-slot channel.
+Fresh == [maxSync |-> -1, syncSlot |-> -1, syncHist |-> {}, elecHist |-> <<>>, lastSync |-> -1,
           cancelled |-> FALSE, m |-> IdleM, w |-> IdleW, lastFor |-> [p |-> NoHV, res |-> "-"], wantH |-> 0]
 
 Chk(cond, tag) == cond \/ PrintT(<<"VERIF_BAD", tag, l>>)
+DropFirst(q, x) == IF x \notin ToSet(q) THEN q
+                     ELSE LET i == CHOOSE i \in DOMAIN q : q[i] = x /\ \A j \in 1..(i - 1) : q[j] # x IN SubSeq(q, 1, i - 1) \o SubSeq(q, i + 1, Len(q))
 Init == l = 1 /\ reg = VC!InitS /\ c = Fresh
 
 P(e) == <<e.h, e.v>>
@@ -79,8 +85,7 @@ CtlStep(e) ==
                    !.syncHist = IF c.m.early THEN @ ELSE @ \cup {e.h}]
     [] e.ev = "main.election.ignored" -> [c EXCEPT !.m = IdleM]
     [] e.ev = "main.election.done" ->
-         [c EXCEPT !.m = IdleM, !.elecSlot = IF c.m.early THEN c.elecSlot ELSE P(e),
-                   !.elecHist = IF c.m.early THEN @ ELSE @ \cup {P(e)}]
+         [c EXCEPT !.m = IdleM, !.elecHist = IF c.m.early THEN @ ELSE Append(@, P(e))]
     [] e.ev \in {"ctx.for", "ctx.cancel"} /\ e.g = "main" /\ c.m.phase # "idle" ->
          [c EXCEPT !.m.ops = Append(@, <<IF e.ev = "ctx.for" THEN "for" ELSE "cancel", e.h, e.v>>)]
     \* ---- worker loop
@@ -90,11 +95,12 @@ CtlStep(e) ==
          [c EXCEPT !.syncSlot = IF @ = e.h \/ early THEN -1 ELSE @, !.syncHist = @ \ {e.h}, !.lastSync = e.h, !.m.early = early,
                    !.w = [IdleW EXCEPT !.kind = "sync", !.arg = <<e.h, 0>>, !.act = RL!WorkerSyncAccepts(e.h, Cur(e))]]
     [] e.ev = "worker.election.taken" ->
-         LET early == P(e) \notin c.elecHist /\ c.m.phase = "election" /\ c.m.arg = P(e) /\ c.m.dec.res = "done" IN
-         [c EXCEPT !.elecSlot = IF @ = P(e) \/ early THEN NoHV ELSE @, !.elecHist = @ \ {P(e)}, !.m.early = early,
+         LET early == P(e) \notin ToSet(c.elecHist) /\ c.m.phase = "election" /\ c.m.arg = P(e) /\ c.m.dec.res = "done" IN
+         [c EXCEPT !.elecHist = DropFirst(@, P(e)), !.m.early = early,
                    !.w = [IdleW EXCEPT !.kind = "election", !.arg = P(e), !.act = RL!WorkerElectionCurrent(P(e), Cur(e))]]
     [] e.ev = "worker.msg.taken" -> [c EXCEPT !.w = [IdleW EXCEPT !.kind = "msg", !.act = TRUE]]
-    [] e.ev = "worker.idle" -> [c EXCEPT !.w = IdleW, !.syncHist = {c.syncSlot} \ {-1}, !.elecHist = {c.elecSlot} \ {NoHV}]
+    [] e.ev = "worker.idle" -> [c EXCEPT !.w = IdleW, !.syncHist = {c.syncSlot} \ {-1},
+                                       !.elecHist = IF c.elecHist = <<>> THEN <<>> ELSE <<Last(c.elecHist)>>]
     [] e.ev = "ctx.for" /\ e.g = "worker" ->
          [c EXCEPT !.lastFor = [p |-> P(e), res |-> e.res], !.w.fors = @ + 1, !.w.firstOk = IF c.w.fors = 0 THEN e.res = "ok" ELSE @,
                    !.wantH = IF e.res = "ok" /\ e.v = 0 /\ e.h > @ THEN e.h ELSE @]
@@ -129,7 +135,7 @@ Judge(e) ==
            (e.h \in c.syncHist \/ (c.m.phase = "sync" /\ c.m.arg[1] = e.h /\ c.m.dec.res = "done")), "c14_conf_worker_took_a_sync_the_slot_never_held")
   /\ Chk(e.ev = "worker.sync.taken" => e.h > c.lastSync, "c14_conf_syncs_taken_out_of_order")
   /\ Chk(e.ev = "worker.election.taken" =>
-           (P(e) \in c.elecHist \/ (c.m.phase = "election" /\ c.m.arg = P(e) /\ c.m.dec.res = "done")), "c15_conf_worker_took_an_election_the_slot_never_held")
+           (P(e) \in ToSet(c.elecHist) \/ (c.m.phase = "election" /\ c.m.arg = P(e) /\ c.m.dec.res = "done")), "c15_conf_worker_took_an_election_the_slot_never_held")
   \* ---- worker iterations
   \* a sync below the current height and an election for another position have no effect at all
   /\ Chk((e.ev \in {"ctx.for", "spi.enter", "timer.armed", "cb.round", "cb.commit", "send"} /\ (e.ev = "ctx.for" => e.g = "worker")
